@@ -22,6 +22,7 @@ for d in sorted(os.listdir(SRC)):
     meta.setdefault('property',m.group(1))
     runs=[]
     for r in sorted(glob.glob(os.path.join(FIN,d+'.*.txt'))):
+        if os.path.basename(r).endswith('.lab.txt'): continue
         check=os.path.basename(r).split('.')[1]
         t=open(r).read()
         viol=re.findall(r'^VIOLATION property=\S+ replay=\S+',t,re.M)
